@@ -23,11 +23,15 @@ RULES = {}
 
 
 def rule(name, pattern, replacement, doc):
+    if name in RULES:
+        raise ValueError("duplicate rewrite rule name " + name)
     # pattern elements are separated by blanks; a blank inside a literal token is written as U+2423
     RULES[name] = ("pat", [x.replace("\u2423", " ") for x in pattern.split()], [x.replace("\u2423", " ") for x in replacement.split()], doc)
 
 
 def pyrule(name, fn, doc):
+    if name in RULES:
+        raise ValueError("duplicate rewrite rule name " + name)
     RULES[name] = ("py", fn, None, doc)
 
 
@@ -492,6 +496,48 @@ def bytestr_to_array(toks):
     return out, count
 
 
+def continue_to_else(toks):
+    """`if COND { continue; } REST` (REST = the remaining statements of the loop body)  ->  `if COND { } else { REST }`.
+    Verus for-loops do not support `continue`; skipping the rest of the body is what `continue` does."""
+    out = list(toks)
+    count = 0
+    i = 0
+    while i < len(out):
+        t = out[i]
+        if t.kind == "id" and t.text == "if":
+            # find the block
+            j = i + 1
+            while j < len(out) and out[j].text != "{":
+                if out[j].text in ("(", "["):
+                    j = match_close(out, j)
+                j += 1
+            if j < len(out):
+                c = match_close(out, j)
+                inner = [x.text for x in out[j + 1:c]]
+                if inner == ["continue", ";"] and (c + 1 >= len(out) or out[c + 1].text != "else"):
+                    # enclosing block close: scan forward at depth 0
+                    depth = 0
+                    k = c + 1
+                    while k < len(out):
+                        if out[k].text in OPEN:
+                            depth += 1
+                        elif out[k].text in CLOSE:
+                            if depth == 0:
+                                break
+                            depth -= 1
+                        k += 1
+                    line = out[c].line
+                    rest = out[c + 1:k]
+                    new = out[i:j + 1] + T("} else {", line) + rest + T("}", out[k].line if k < len(out) else line)
+                    out[i:k] = new
+                    count += 1
+                    i = j + 1
+                    continue
+        i += 1
+    return out, count
+
+
+pyrule("D17.continue_to_else", continue_to_else, continue_to_else.__doc__)
 pyrule("D16.bytestr_to_array", bytestr_to_array, bytestr_to_array.__doc__)
 pyrule("D1.for_vec_while", for_vec_while, for_vec_while.__doc__)
 pyrule("D9.generic_path_param", generic_path_param, generic_path_param.__doc__)
@@ -957,7 +1003,7 @@ rule("D6.pathbuf_push_clone",
      "shim_pathbuf_push ( & mut f , p . clone ( ) )",
      "PathBuf::push(PathBuf)")
 
-rule("D6.pathbuf_from_component",
+rule("D6.pathbuf_from_comp_osstr",
      "PathBuf :: from ( c [ 2 ] . as_os_str ( ) )",
      "shim_pathbuf_from_comp ( c [ 2 ] )",
      "PathBuf::from(component.as_os_str())")
@@ -977,6 +1023,26 @@ rule("D14.question_mark_call",
      "( match $recv ( $(a) ) { Ok ( __v ) => __v , Err ( __e ) => return Err ( From :: from ( __e ) ) } )",
      "`CALL(args)?` with an error conversion written out (definition of `?`)")
 
+rule("D6.reader_lines",
+     "reader . lines ( )",
+     "shim_reader_lines ( reader )",
+     "BufRead::lines() collected: the world's sequence of io::Result<String> lines")
+
+rule("D6.str_trim",
+     "line . trim ( )",
+     "shim_trim ( & line )",
+     "str::trim()")
+
+rule("D6.line_starts_with_lit",
+     "line . starts_with ( $l:str )",
+     "shim_starts_with_str ( line , $l )",
+     "str::starts_with(literal)")
+
+rule("D6.str_to_index_q",
+     "Self :: str_to_index ( & buffer ) ?",
+     "( match Self :: str_to_index ( & buffer ) { Ok ( __v ) => __v , Err ( __e ) => return Err ( From :: from ( __e ) ) } )",
+     "`?` written out (same error type)")
+
 rule("D6.take_digits",
      "$recv . chars ( ) . take_while ( char :: is_ascii_digit ) . collect ( )",
      "shim_take_ascii_digits ( $recv )",
@@ -986,3 +1052,19 @@ rule("D6.rsplitn2_dash",
      "$recv . rsplitn ( 2 , '-' ) . collect ( )",
      "shim_rsplitn2_dash ( $recv )",
      "Vec<&str> of at most two pieces, split at the last '-' (last piece first)")
+
+rule("D9.serde_visit_str_sig",
+     "fn visit_str < E > ( self , value : & str ) -> Result < Self :: Value , E > where E : de :: Error ,",
+     "fn visit_str ( self , value : & str ) -> Result < HashMap < String , String > , DeErr >",
+     "serde::de::Visitor::visit_str at Self::Value = HashMap<String,String> with the (never constructed) error type parameter "
+     "instantiated by a unit-local empty enum: serde's traits cannot be imported into single-file Verus")
+
+rule("D6.split_once_char",
+     "$recv . split_once ( $c:char )",
+     "shim_split_once_char ( $recv , $c )",
+     "str::split_once at the first occurrence of a char")
+
+rule("D6.trim_to_string",
+     "$x:id . trim ( ) . to_string ( )",
+     "shim_trim_to_string ( $x )",
+     "str::trim().to_string()")
